@@ -1,5 +1,5 @@
 from .. import common, mir
-from ..rules import dec, c04
+from ..rules import dec, c04, c11, c12, c11_r3
 
 
 def run(tier, replay=None):
@@ -16,4 +16,12 @@ def run(tier, replay=None):
         dec.c02_block(rep, crate, cfg, r)
         # encoder and decoder must agree on ESI -> ISI (a packet's label and its payload), else no round trip
         c04.run_isi(rep, crate, cfg)
+        # the symbol arithmetic the solver and the rebuild rest on: every kernel covers its buffers exactly once, computes its
+        # operation's template and stays inside the buffers on every CPU path (C11-R2/R3, C12-R1)
+        sub = common.Report("C12", tier)
+        logs = c12.run(sub, crate, cfg)
+        for v in sub.viol:
+            rep.bad(v["rule"], v["fn"], v["key"].split("|", 2)[2], v["where"], v["msg"], v.get("detail"), cfg)
+        c11.run_cover(rep, crate, cfg, logs)
+        c11_r3.run(rep, crate, cfg)
     return rep.finish("other", "decoder returns exactly the object: structural clauses", "./check C01 %s" % tier)
